@@ -249,7 +249,7 @@ Qed.
 
 Lemma INV_deq s e s' : INV s -> gdeq s <> None -> step_deq s e = Some s' -> INV s'.
 Proof.
-  intros [I1 I2 I3 I4 I5 I6 I7] Hg H. unfold step_deq in H.
+  intros [I1 I2 I3 I4 I5 I6 I7] Hg H. unfold step_deq, guard in H.
   assert (Hpre : pre_loop (pp s) = true -> False).
   { intros Hp. destruct (I3 Hp) as [Hd _]. rewrite Hd in H. discriminate H. }
   inv_step H; inv_helpers; injection H as <-; cbn [dp_shape] in I4.
